@@ -1,6 +1,6 @@
 #!/bin/bash
 # run every quick check once against /repo and print one line each (use after touching shared modules)
-cd /verif
+cd "$(dirname "$0")/.."
 rc=0
 for i in $(seq -w 1 20); do
   out=$(timeout $([ "${1:-quick}" = thorough ] && echo 7200 || echo 1500) /venv/bin/python -m mc.run C$i --tier ${1:-quick} 2>&1); s=$?
